@@ -244,8 +244,19 @@ def build_harness(res, name, module_dir="harness", tags="verif", prebuild=None):
     with Lock("go-" + module_dir.replace("/", "_")):
         if prebuild and not PREBUILD[prebuild](res, module_dir):
             return None
-        rc, out, err = run(["go", "build", "-tags", tags, "-o", exe, "./cmd/" + name],
-                           cwd=os.path.join(VERIF, module_dir), env=goenv(), timeout=1800)
+        cmd = ["go", "build", "-tags", tags, "-o", exe]
+        mdir = os.path.join(VERIF, module_dir)
+        if module_dir == "harness" and os.path.abspath(REPO) != "/repo":
+            # harness/go.mod replaces the repository's modules by /repo/...: for another tree
+            # (VERIF_REPO: scratch worktrees, snapshots) build with a rewritten copy of go.mod
+            alt = os.path.join(BUILD, "harness-altrepo.mod")
+            os.makedirs(BUILD, exist_ok=True)
+            data = open(os.path.join(mdir, "go.mod")).read().replace("=> /repo/", "=> %s/" % os.path.abspath(REPO))
+            if not os.path.exists(alt) or open(alt).read() != data:
+                open(alt, "w").write(data)
+            shutil.copyfile(os.path.join(mdir, "go.sum"), alt[:-4] + ".sum")
+            cmd.append("-modfile=" + alt)
+        rc, out, err = run(cmd + ["./cmd/" + name], cwd=mdir, env=goenv(), timeout=1800)
     if rc != 0:
         res.violation("tie-broken", "harness-build:" + name, (out + err)[-3000:])
         return None
